@@ -27,7 +27,7 @@ type C16Case struct {
 	Probes []C16Probe  `json:"probes"`
 }
 
-var c16Ops = []string{"get", "get", "insert", "insert", "inserthigh", "insertlow", "insertlow", "update", "delete", "delete", "deletetop", "deletetop", "delabsent", "clone", "openbad", "cursor", "min", "max", "ceil", "forward", "backward", "seekfirst"}
+var c16Ops = []string{"get", "get", "insert", "insert", "inserthigh", "insertlow", "insertlow", "update", "delete", "delete", "deletetop", "deletetop", "delabsent", "clone", "mutclone", "mutpersist", "getwrongtype", "openbad", "cursor", "min", "max", "ceil", "forward", "backward", "seekfirst"}
 
 func genC16(t *rapid.T, tier string) C16Case {
 	c := C16Case{Cfg: core.GenConfig(t, tier, core.GenOpts{Caches: []string{"none"}, Vals: []string{core.VInt, core.VString, core.VBytes, core.VPtr, core.VStruct}, BigOneIn: 8})}
@@ -241,6 +241,60 @@ func runC16(c C16Case, o *run.Obs) error {
 			err = count(fmt.Sprintf("Delete(absent %v)", w.Pool[ak]), 2*(h+1), func() error { lt.M.Delete(core.Ctx, w.Pool[ak], w.Cfg.MakeVal(0)); return nil })
 		case "clone":
 			err = count("Clone", 1, func() error { _, e := lt.M.Clone(core.Ctx); return e })
+		case "mutclone", "mutpersist":
+			// a version that was opened and then modified: cloning it still needs nothing beyond (at most) the top node,
+			// and persisting it is not an operation that may read in proportion to the tree
+			ak, ok := core.AbsentKey(lt.Model, len(w.Pool), pr.K)
+			if !ok {
+				continue
+			}
+			if e := w.Insert(lt, ak, 3); e != nil {
+				o.Label("aborted:base-failure")
+				return nil
+			}
+			if pk, ok := core.PresentKey(lt.Model, pr.K/2); ok && pr.K%3 == 0 {
+				if e := w.Delete(lt, pk); e != nil {
+					o.Label("aborted:base-failure")
+					return nil
+				}
+			}
+			w.Store.TrimLog()
+			if pr.Op == "mutclone" {
+				err = count("Clone of an opened and then modified version", 1, func() error { _, e := lt.M.Clone(core.Ctx); return e })
+			} else {
+				bound := -1
+				if large {
+					bound = sublinearCap
+				}
+				err = count("MakeRoot of an opened and then modified version", bound, func() error { _, e := lt.M.MakeRoot(core.Ctx); return e })
+			}
+		case "getwrongtype":
+			// a lookup with a key of another type than the tree's keys: whatever it answers, it is a lookup
+			var wrong interface{}
+			switch k := key.(type) {
+			case int:
+				wrong = int64(k)
+			case int64:
+				wrong = int(k)
+			case uint:
+				wrong = uint64(k)
+			case uint64:
+				wrong = uint(k)
+			case string:
+				wrong = []byte(k)
+			case []byte:
+				wrong = string(k)
+			default:
+				continue // user key types decide themselves what they accept
+			}
+			mark := w.Store.Mark()
+			var v interface{}
+			_ = core.Safely("Get", func() error { _, e := lt.M.Get(core.Ctx, wrong, &v); return e })
+			n := countLoads(w, mark)
+			w.Store.TrimLog()
+			if n > h+1 {
+				err = fmt.Errorf("%s: Get(%T %v) read %d nodes, bound is %d", desc, wrong, wrong, n, h+1)
+			}
 		case "openbad":
 			// an open that is refused (reversed key order) still reads at most the top node
 			w2 := *w
